@@ -1,4 +1,4 @@
-import FatVerif.Proofs.SlotTreeImg20
+import FatVerif.Proofs.SlotTreeImg24
 import FatVerif.Props.C01tree
 /-!
 # C01, read-only half END TO END at byte level: `open_dir`, `open_file`, listing on a device image
@@ -727,6 +727,72 @@ theorem rename_file_refines_spec_img_partial (u : Char → List Char) {d : Dev} 
     obtain ⟨d', hr, hs, hW⟩ := o2 rows hout
     exact Or.inr ⟨d', _, hr, hs, hW, hwf', hacc.1, hacc.2⟩
 
+/-- **the FAT-level side conditions from a well-formed FAT** (`SlotTreeImg.apart_of_fatWf`,
+    `SlotTreeImg.freedApart_of_fatWf`, over agent-fat's `FatDisjoint.free_not_in_any_chain` /
+    `head_chains_disjoint`): if the decoded FAT of the image is `FatWf`, then
+    (a) `DirRes.apart` holds for every FREE cluster `c` once the directory heads named by the cluster map are
+        allocated (`DirHeadsAlloc`) — `DirRes.of_fatWf` builds the whole bundle that way;
+    (b) `FreedApart` holds for the chain `cs` of a head `n` to which no link points, once the directory heads are
+        other heads (`DirHeadsApartFrom`).
+    NOT proved: that `DirHeadsAlloc` / `DirHeadsApartFrom` are invariants of the histories (they are facts about the
+    FAT which `ImgTreeW` does not record; `ChainReadable` only says that each chain is a chain of the FAT). -/
+theorem fat_side_conditions_of_fatWf {d : Dev} {up : Char → List Char} {t : Node} {cl : List String → Option Nat}
+    (hw : Fat.FatWf (FileSim.tabView d.fs d.img) d.fs.totalClusters) :
+    (∀ c, DirHeadsAlloc d up t cl → FileSim.tabView d.fs d.img c = .free →
+      ∀ cur s ch, cur ≠ [] → getAtS up t cur = some (.dir s ch) → ∀ c0 chain, cl cur = some c0 →
+        Fat.Chain (FileSim.tabView d.fs d.img) c0 chain → c ∉ chain) ∧
+    (∀ n cs, Fat.Chain (FileSim.tabView d.fs d.img) n cs → (∀ q, FileSim.tabView d.fs d.img q ≠ .data n) →
+      DirHeadsApartFrom d up t cl n → FreedApart d up t cl cs) :=
+  ⟨fun _ hh hf => apart_of_fatWf hw hh hf, fun _ _ hn hnh hd => freedApart_of_fatWf hw hn hnh hd⟩
+
+/-- **`create_file(name)` through the handle of a SUB-directory, slot level** (`SlotTreeImg.createFile_sub_slots`;
+    groundwork for the case "last directory below the root", which is NOT composed into a tree step).
+    `SubSlots d chain s1 s2 slots tail`: the cluster chain holds the `.` slot, the `..` slot, then the slot list `slots`
+    of the model's node, then end markers.  Through the handle `File::new(Some(c0), Some(ed0))` (hypotheses of
+    agent-effects' `WView.ofSub`: the directory's own record `ed0` lies behind the FAT copies, inside the device, apart
+    from the directory's slots) and for a name other than `.`/`..` the program ends as the slot model says on `slots`:
+    the error / existing entry / alias of `checkForExistenceL up slots name (some false)` (`check_dots`: the dot entries
+    answer to no other name and leave the alias generator as it is), the error of `validate_long_name`, or the write —
+    after which the chain holds `s1 :: s2 :: DirSlots.writeEntry slots …` and end markers (`findFree_cons_live`,
+    `writeEntry_cons_live`: the two functions shift by the dot slots), the FAT and every byte from `0x42` on outside
+    the directory's slots and outside the 32 bytes of its own record being kept (`FrameOutE … (subExtra ed0)`).
+    MISSING for the tree step: (i) the 32 bytes at `ed0.pos` — the destructor of the handle re-writes the record with
+    the clock's modification stamp (agent-effects: `MidImg … subDropPost`), so the PARENT's slot list on the image
+    differs from the model tree's in bytes 22–25 of one short slot unless the stamp was already the clock's;
+    `ImgTreeW` would have to hold modulo those bytes (or of a re-stamped tree with the same abstraction);
+    (ii) transport of the other directories (their chains must be disjoint from this one: `FatWf` + distinct heads);
+    (iii) the growth of the directory by a cluster (`hroom` excludes it). -/
+theorem create_file_subdir_slots_partial {d : Dev} {up : Char → List Char} (hup : DotSafe up) (env : Env)
+    (henv : env.upper = up) (c0 : Nat) (ed0 : DirEntryEditor) (chain : List Nat)
+    (C : DirSim.ChainDir d (FileH.new (some c0) (some ed0)) c0 chain) (hwfI : d.img.WF)
+    (hfuel : chain.length * (d.fs.clusterSize / 32) < dirFuel d.fs) (hnm : ed0.data.name.length = 11)
+    (hepos : (fatSliceOf d.fs).beginOff + (fatSliceOf d.fs).mirrors * (fatSliceOf d.fs).size ≤ ed0.pos)
+    (hein : ed0.pos + 32 ≤ d.img.size)
+    (heout : ∀ i, i < chain.length * (d.fs.clusterSize / 32) →
+      DirSim.chainSrc d.fs chain (32 * i) + 32 ≤ ed0.pos ∨ ed0.pos + 32 ≤ DirSim.chainSrc d.fs chain (32 * i))
+    (halloc : d.fs.lfnAlloc = true) (s1 s2 : List Nat) (slots tail : List (List Nat))
+    (S : SubSlots d chain s1 s2 slots tail) (path name : String) (hsp : Names.splitPath path = (name, none))
+    (hdot : isDotName name = false)
+    (hroom : DirSlots.findFree slots (Lfn.numParts (Names.encodeUtf16 name.toList).length + 1) +
+      (Lfn.numParts (Names.encodeUtf16 name.toList).length + 1) + 2 ≤ chain.length * (d.fs.clusterSize / 32))
+    (f : Nat) :
+    match DirAlias.checkForExistenceL up slots name (some false) 70000 with
+    | .error e => FailsV (createFile env (f + 1) (.file (FileH.new (some c0) (some ed0))) path) d e
+    | .ok (.entry _) => ∃ h, Reads (createFile env (f + 1) (.file (FileH.new (some c0) (some ed0))) path) d h
+    | .ok (.alias a) =>
+      match Names.validateLongName name with
+      | .error e => FailsV (createFile env (f + 1) (.file (FileH.new (some c0) (some ed0))) path) d e
+      | .ok () =>
+        ∃ (h : FileH) (d' : Dev) (tail' : List (List Nat)),
+          run (createFile env (f + 1) (.file (FileH.new (some c0) (some ed0))) path) d = (.ok h, d') ∧ VolStep d d' ∧
+          SubSlots d' chain s1 s2
+            (DirSlots.writeEntry slots (Names.encodeUtf16 name.toList)
+              (DirAlias.sfnWith a (0 :: sfnStamp d.fs d.clock none))) tail' ∧
+          DirSim.FrameOutE (chain.length * (d.fs.clusterSize / 32)) (DirSim.chainSrc d.fs chain)
+            (DirSim.subExtra ed0) d d' :=
+  createFile_sub_slots hup env henv c0 ed0 chain C hwfI hfuel hnm hepos hein heout halloc s1 s2 slots tail S path name
+    hsp hdot hroom f
+
 /-! ### histories through the root handle -/
 
 /-- a history of calls at byte level with the slot tree beside it: the observed outcomes, the final device and tree -/
@@ -848,18 +914,35 @@ theorem fat3 : tabView dev.fs dev.img 3 = .eoc := by decide +kernel
 theorem find4 : allocFindV (tabView dev.fs dev.img) dev.fs.fsInfo.next dev.fs.totalClusters = some 4 := by
   decide +kernel
 
-theorem chain2 (chain : List Nat) (h : Chain (tabView dev.fs dev.img) 2 chain) : chain = [2, 3] := by
-  cases h with
-  | last _ hl => exact absurd fat2 (hl 3)
-  | cons _ n cs h1 h2 =>
-    rw [fat2] at h1
-    cases h1
-    cases h2 with
-    | last _ _ => rfl
-    | cons _ m _ h3 _ => rw [fat3] at h3; cases h3
+theorem tab4 : ∀ c, c < 6 → tabView dev.fs dev.img c =
+    [FatValue.eoc, .eoc, .data 3, .eoc, .free, .free].getD c .bad := by decide +kernel
+
+/-- the FAT of the image is well formed: its only link is 2 → 3 -/
+theorem fatwf4 : FatWf (tabView dev.fs dev.img) dev.fs.totalClusters := by
+  have key : ∀ c n, tabView dev.fs dev.img c = .data n → c = 2 ∧ n = 3 := by
+    intro c n h
+    have hc : c < 6 := by
+      apply Classical.byContradiction
+      intro hc
+      unfold tabView at h
+      rw [if_neg (show ¬ c < dev.fs.totalClusters + 2 from hc)] at h; cases h
+    rw [tab4 c hc] at h
+    have : c = 0 ∨ c = 1 ∨ c = 2 ∨ c = 3 ∨ c = 4 ∨ c = 5 := by omega
+    rcases this with rfl | rfl | rfl | rfl | rfl | rfl <;> first | (cases h; omega) | cases h
+  refine ⟨?_, ?_, ?_, ⟨fun c => 10 - c, ?_⟩⟩
+  · intro c n h; obtain ⟨_, rfl⟩ := key c n h; decide
+  · intro c n h
+    obtain ⟨_, rfl⟩ := key c n h
+    rw [fat3]; decide
+  · intro a b n ha hb
+    obtain ⟨rfl, _⟩ := key a n ha
+    obtain ⟨rfl, _⟩ := key b n hb
+    rfl
+  · intro c n h; obtain ⟨rfl, rfl⟩ := key c n h; decide
 
 /-- **the byte-level `create_dir` on the image**: walks into `sub` and back, allocates cluster 4, writes the two slots
-    of `New dir` into the root region and the dot entries into cluster 4; afterwards the image holds the new slot
+    of `New dir` into the root region and the dot entries into cluster 4 (`DirRes.apart` is discharged from the
+    well-formedness of the FAT, `DirRes.of_fatWf`: the head of `sub`'s chain is allocated, cluster 4 is free); afterwards the image holds the new slot
     tree under a cluster map that agrees with `cl` on the old directories -/
 example : ∃ (s : DirStream) (d' : Dev),
     run (createDir env 30 (rootDirStream dev.fs) "sub/../New dir") dev = (.ok s, d') ∧ VolStep dev d' ∧
@@ -874,8 +957,8 @@ example : ∃ (s : DirStream) (d' : Dev),
       obtain ⟨rfl, _⟩ := ht
       have hpp : (pathParts "sub/../New dir").2 = "New dir" := by decide +kernel
       rw [hpp]
-      refine ⟨geo, ⟨(fun n h => by cases h), (fun n h => by cases h)⟩, by decide, by decide, by decide, by decide, find4,
-        by decide, ?_, ?_⟩
+      refine DirRes.of_fatWf geo ⟨(fun n h => by cases h), (fun n h => by cases h)⟩ (by decide) (by decide) (by decide)
+        (by decide) find4 (by decide) ?_ fatwf4 ?_
       · intro N hN
         have h16 : N = 16 := by
           have h1 := hN.slots
@@ -883,14 +966,13 @@ example : ∃ (s : DirStream) (d' : Dev),
           omega
         rw [h16]
         exact room_dir
-      · intro cur s c' hne _ c0 chain hcl hch
+      · intro cur s c' hne _ c0 hcl
         have h2 : c0 = 2 := by
           unfold cl at hcl
           rw [if_neg hne] at hcl
           cases hcl; rfl
         subst h2
-        rw [chain2 chain hch]
-        decide)
+        rw [fat2]; decide)
     (by rw [show sfnStamp dev.fs dev.clock (some 4) = stampDir from rfl, model_mkdir.1]; simp)
   exact o2 [] model_mkdir.1
 
